@@ -463,6 +463,12 @@ func importRules(repo string) (string, error) {
 				ops = append(ops, "IndexUnknown")
 			}
 		case *ast.IfStmt:
+			// the normalisation step of fixes/C05-2 (`if syslutil.IsRemoteImport(ret) { ret = "/" + path.Clean(ret) } else
+			// { ret = path.Clean(ret) }`) is a fact of the NameRules table (translate/namerules.go, index_shape); this
+			// table, which C06 shares, lists the two string operations before it and is the same with and without it
+			if retVar != "" && nrIsCleanStep(pf, s, retVar) {
+				continue
+			}
 			// if i > -1 { ret = ret[:i] }
 			good := false
 			if be, ok := s.Cond.(*ast.BinaryExpr); ok && posVar != "" && isIdent(be.X, posVar) && len(s.Body.List) == 1 && s.Else == nil {
